@@ -1,5 +1,5 @@
 (* C19 — text from the spec never turns into code (template-splice clause + inventory).  Statements only. *)
-From OAS Require Import Lib.Str Model.Path Model.Splice Proof.Splice Proof.Server.
+From OAS Require Import Lib.Str Model.Path Model.Splice Proof.Splice Proof.Server Model.DocLines Proof.DocLines.
 Local Open Scope list_scope.
 
 (* Display of value enums: whatever the enum value contains, the emitted template prints exactly the value *)
@@ -16,6 +16,30 @@ Theorem C19_mixed_path : forall seg ps vals, tokenize seg = Some ps ->
   fmt_render (mixed_format ps) vals = subst_parts ps vals.
 Proof. intros seg ps vals H. apply mixed_format_renders. eapply tokenize_brace_free. exact H. Qed.
 
+(* doc comments: whatever CR / LF / CRLF mixture a description, summary, title or version carries, every
+   emitted doc line is free of line breaks (so each `#[doc = ..]` prints as exactly one `///` line and no bare
+   CR reaches rustc), and the lines, concatenated, are the text with nothing but its line breaks removed *)
+Theorem C19_doc_lines_single : forall text, Forall (fun l => no_break l = true) (rust_lines (normalize_line_breaks text)).
+Proof. exact rust_lines_normalized_no_break. Qed.
+
+Theorem C19_doc_phys_lines_single : forall stored, Forall (fun l => no_break l = true) (phys_lines stored).
+Proof. exact phys_lines_no_break. Qed.
+
+Theorem C19_doc_phys_lines_content : forall stored, sconcat (phys_lines stored) = sfilter (fun c => negb (is_break c)) stored.
+Proof. exact phys_lines_content. Qed.
+
+Check C19_doc_lines_single : forall text, Forall (fun l => no_break l = true) (rust_lines (normalize_line_breaks text)).
+Check C19_doc_phys_lines_content : forall stored, sconcat (phys_lines stored) = sfilter (fun c => negb (is_break c)) stored.
+
+(* what the normalisation is for (the pre-fix behaviour): `str::lines` alone leaves a lone CR inside a line *)
+Theorem C19_doc_lines_unnormalized_refuted : exists text, ~ Forall (fun l => no_break l = true) (rust_lines text).
+Proof. exists (String "a" (String CR (String "b" EmptyString))). intro H. inversion H as [|? ? H1 _]. vm_compute in H1. discriminate. Qed.
+
+Example C19_doc_nonvacuous :
+  phys_lines (String "a" (String CR (String LF (String CR (String "b" (String LF EmptyString)))))) = ["a"; ""; "b"]
+  /\ phys_lines "" = [""] /\ rust_lines (normalize_line_breaks "") = [].
+Proof. vm_compute. repeat split; reflexivity. Qed.
+
 Check C19_display_escaped : forall v, fmt_render (escape v) [] = Some v.
 
 Example C19_nonvacuous :
@@ -25,3 +49,6 @@ Proof. vm_compute. split; reflexivity. Qed.
 
 Print Assumptions C19_display_escaped.
 Print Assumptions C19_mixed_path.
+Print Assumptions C19_doc_lines_single.
+Print Assumptions C19_doc_phys_lines_single.
+Print Assumptions C19_doc_phys_lines_content.
